@@ -1,4 +1,4 @@
-from specs.common import run, ASSUME_COMMON
+from specs.common import run, memcheck, ASSUME_COMMON
 
 # case layout of harness/c09_w3c.cc (the same in both tiers, so a case replays under any tier):
 # every 33rd case is the next slot of the completely enumerated block - enumerated case e = i/33
@@ -11,7 +11,8 @@ SPEC = {
     "runs": [run("e1-recogniser", "c09_w3c", "asan", 20500, 2500000, need_lib=False),
              # the shared propagator objects used by 2..8 threads at once (TSan + perturbation shim)
              run("e2-threads", "prop_threads", "tsan", 60, 3000, sq=2, st=8, need_lib=False, params={"prop": "C09"},
-                 sources=["harness/prop_threads.cc", "vf/shim/vf_runtime.cc"])],
+                 sources=["harness/prop_threads.cc", "vf/shim/vf_runtime.cc"]),
+             memcheck("c09_w3c", 1500, 75000, need_lib=False)],
     "floors": {
         # the enumerated block is deterministic: 4 of the 9 quick bases are plain version-00 headers
         "quick": {"concurrent_cases_ge4_threads": 15, "extracts_repeated_over_scribbled_stack": 20000, "enum_single_byte_mutants_v00": 14080, "enum_positions_v00": 55, "enum_flag_bytes_injected": 512,
